@@ -154,9 +154,8 @@ def inlineDef (lex : Bool) (name : Name) (params : List Name) (fl : DefFlags) (o
   let flags : FunFlags := { ownLoops := own, deco := fl.deco, lex := lex }
   if fl.cached then
     .seq (.defn (innerName name) params flags (defShape fl pre body))
-         -- `write_inline_def` passes buffered=False to `write_cache_decorator`: the replacement of an
-         -- inline cached def always *writes* the cached content; it repeats the `LoopStack` declaration
-         (.defn name params { ownLoops := own, deco := false, lex := lex } (cacheWrapper name params false))
+         -- the replacement callable repeats the `LoopStack` declaration of the original
+         (.defn name params { ownLoops := own, deco := false, lex := lex } (cacheWrapper name params fl.buffered))
   else .defn name params flags (defShape fl pre body)
 
 /-- the scope of the content of a closure written in scope `sc`, whose nearest outer binding of `caller` is
